@@ -56,6 +56,9 @@ pub fn run(
     let fail_pct = *rng.pick(&[35u64, 35, 80, 100]);
     let burst = rng.chance(50, 100);
     let n_conns = if burst && thorough { n_conns + rng.usize(8) } else { n_conns };
+    // When every setup fails, a long row of failures is the point: any
+    // penalty the listener accumulates per failure gets to show.
+    let n_conns = if fail_pct == 100 { n_conns + 8 } else { n_conns };
     let mut plan: Vec<bool> = (0..n_conns).map(|i| {
         !mask.contains(&(0, i)) && rng.chance(fail_pct, 100)
     }).collect();
@@ -93,6 +96,8 @@ pub fn run(
     listener.set_nonblocking(true).unwrap();
     let port = listener.local_addr().unwrap().port();
 
+    let leak: Arc<Mutex<(usize, Vec<(std::net::IpAddr, usize)>)>> =
+        Arc::new(Mutex::new((0, Vec::new())));
     let runtime = tokio::runtime::Builder::new_current_thread()
         .enable_all().build().unwrap();
     let outcome: Vec<(usize, bool, String)> = runtime.block_on(async {
@@ -151,6 +156,20 @@ pub fn run(
             };
             res.push((i, fails, served, detail));
         }
+        // C36: all clients have closed; once the server has noticed, every
+        // open-connection count must be back at zero.
+        let mut open = (0usize, Vec::new());
+        for _ in 0..100 {
+            tokio::time::sleep(Duration::from_millis(20)).await;
+            let global = metrics.global().current_connections();
+            let per_addr: Vec<(std::net::IpAddr, usize)> = metrics.clients()
+                .map(|list| list.iter().map(|(addr, data)| {
+                    (*addr, data.current_connections())
+                }).filter(|(_, n)| *n != 0).collect()).unwrap_or_default();
+            open = (global, per_addr);
+            if open.0 == 0 && open.1.is_empty() { break }
+        }
+        *leak.lock().unwrap() = open;
         server.abort();
         res.into_iter().map(|(i, fails, served, detail)| {
             (i, fails, format!("{served}:{detail}"))
@@ -195,7 +214,20 @@ pub fn run(
         }
     }
     // C36 (counts): after all connections closed, open counts return to 0.
-    std::thread::sleep(Duration::from_millis(20));
+    let open = leak.lock().unwrap().clone();
+    if open.0 != 0 || !open.1.is_empty() {
+        violations.push(Violation {
+            property: "C36", class: "count-leak".into(),
+            message: format!(
+                "all {} connections are closed but the open-connection \
+                 counts are: global {}, per address {:?} (setups failed: {})",
+                outcome.len(), open.0, open.1,
+                outcome.iter().filter(|o| o.1).count()
+            ),
+            step: 0,
+        });
+        log.push("VIOLATION C36 count-leak".into());
+    }
     let _ = std::fs::remove_dir_all(scratch);
     stats.steps = outcome.len() as u64;
     stats.fault(if burst { "burst" } else { "sequential" });
